@@ -7,6 +7,7 @@ import ast
 import copy
 import hashlib
 import os
+import sys
 import typing as tp
 
 
@@ -1048,6 +1049,7 @@ def _inline_single_call_helpers(trees: tp.Sequence[ast.AST]) -> None:
         return
     site_no = [0]
     spliced: tp.Dict[str, int] = {}
+    touched: tp.Set[int] = set()
     for tree in trees:
         nested = {id(g) for f in ast.walk(tree) if isinstance(f, (ast.FunctionDef, ast.AsyncFunctionDef)) for b in f.body for g in ast.walk(b)
                   if isinstance(g, (ast.FunctionDef, ast.AsyncFunctionDef))}
@@ -1089,6 +1091,7 @@ def _inline_single_call_helpers(trees: tp.Sequence[ast.AST]) -> None:
                                         return self.generic_visit(node)
                                 Sub().visit(s)
                                 st.insert(i - 1, ast.copy_location(ast.Assign(targets=[ast.Name(id=tmp, ctx=ast.Store())], value=found), s))
+                                touched.add(id(tree))
                                 i -= 1          # revisit: the inserted assignment is now at this position
                                 continue
                         call = getattr(s, 'value', None) if isinstance(s, (ast.Assign, ast.Return, ast.Expr)) else None
@@ -1209,6 +1212,7 @@ def _inline_single_call_helpers(trees: tp.Sequence[ast.AST]) -> None:
                                 if isinstance(x, ast.stmt) and not hasattr(x, '_sfa_origin'):
                                     x._sfa_origin = origin          # exception tables are keyed by the function a statement was written in
                         st[i - 1:i] = new
+                        touched.add(id(tree))
                         i += len(new) - 1
             ast.fix_missing_locations(fn)
     for nm, k in spliced.items():
@@ -1222,6 +1226,39 @@ def _inline_single_call_helpers(trees: tp.Sequence[ast.AST]) -> None:
         ast.fix_missing_locations(tree)
 
 
+_SELF_DIGEST: tp.List[str] = []
+
+
+def _canonical_tree(src: str, path: str) -> ast.AST:
+    '''canonicalise(parse(src)), memoised on disk by the digest of (this file, src): a scratch copy with one module edited re-does one module.  The cache is an
+    optimisation only: any failure to read or write it falls back to computing the tree.'''
+    import pickle
+    import tempfile
+    if os.environ.get('SFA_NO_CACHE'):
+        return canonicalise(ast.parse(src, filename=path))
+    if not _SELF_DIGEST:
+        with open(__file__, 'rb') as f:
+            _SELF_DIGEST.append(hashlib.sha256(f.read() + sys.version.encode()).hexdigest()[:16])
+    key = hashlib.sha256((_SELF_DIGEST[0] + '\0' + src).encode()).hexdigest()[:32]
+    cdir = os.path.join(os.environ.get('SFA_CACHE_DIR') or tempfile.gettempdir(), f'sfa-ast-cache-{os.getuid()}-{_SELF_DIGEST[0]}')
+    fp = os.path.join(cdir, key + '.pkl')
+    try:
+        with open(fp, 'rb') as f:
+            return pickle.load(f)
+    except Exception:
+        pass
+    tree = canonicalise(ast.parse(src, filename=path))
+    try:
+        os.makedirs(cdir, exist_ok=True)
+        tmpf = f'{fp}.{os.getpid()}.tmp'
+        with open(tmpf, 'wb') as f:
+            pickle.dump(tree, f, protocol=pickle.HIGHEST_PROTOCOL)
+        os.replace(tmpf, fp)
+    except Exception:
+        pass
+    return tree
+
+
 class Module:
     def __init__(self, name: str, path: str, relpath: str, src: str):
         self.name = name
@@ -1230,7 +1267,7 @@ class Module:
         self.relpath = relpath
         self.src = src
         self.lines = src.splitlines()
-        self.tree = canonicalise(ast.parse(src, filename=path))
+        self.tree = _canonical_tree(src, path)
         self.imports: tp.Dict[str, tp.Tuple[str, tp.Optional[str]]] = {}
         self.constants: tp.Dict[str, ast.expr] = {}
         self.functions: tp.Dict[str, FuncInfo] = {}
